@@ -37,6 +37,7 @@ GUARD = "LENSKIT_LKPY_VERIF"
 PY = "/venv/bin/python"
 
 NPROC = min(16, os.cpu_count() or 4)
+MEM_KB = 20 * 1024 * 1024   # 20 GB address space per coqc
 
 
 def base_env(**extra) -> dict:
@@ -327,7 +328,8 @@ def make_targets(targets: list[str], timeout=1500) -> tuple[bool, str]:
     """Full .vo build of the given targets (and their dependency closure)."""
     with BuildLock():
         ensure_makefile()
-        cmd = ["timeout", str(timeout), "make", f"-j{NPROC}", "-C", str(COQ)] + targets
+        # memory cap per process: a runaway proof search must not take the machine (and the lock) with it
+        cmd = ["bash", "-c", f"ulimit -v {MEM_KB}; exec timeout {timeout} make -j{NPROC} -C {COQ} " + " ".join(targets)]
         p = subprocess.run(cmd, capture_output=True, text=True)
         return p.returncode == 0, (p.stdout + p.stderr)[-6000:]
 
